@@ -641,6 +641,7 @@ def abstract_method(ex, recv, name, args, kw, st, where):
             modp = ex.repo.classes[owner].path
             ret = ex.world.ann_to_ty(fn.returns, modp) if fn.returns is not None else None
             bound = ex.bind_params(fn, recv, args, kw, modp)
+            ex.unwrap_opt_args(fn, modp, {}, bound, st, f"{ex.cur_key}.call@{where}.{base}.{name}", f"{base}.{name}")
             params = [p.arg for p in fn.args.args]
             args = [bound[p] for p in params[1:]]
     if ret is None:
